@@ -535,6 +535,19 @@ func (h *clH) tickLandingScript(pool uint64) {
 	h.fs = "tofee"
 	h.swap(pool)
 	h.dump(pool)
+	// the price now rests exactly on the crossed tick t (cursor t−1): a position whose UPPER bound is t is in range by the
+	// cursor while its base amount is zero (and one with LOWER bound t is out of range) — "in range" is decided by the tick,
+	// not by which amounts the deposit takes
+	if pl, found, _ := h.c.App.LiquiditypoolKeeper.GetPool(h.c.Ctx(), pool); found && h.lastToTick {
+		c := deep()
+		h.fp = &clForcedPos{pl.CurrentTick - 3*w, pl.CurrentTick + 1, c, c}
+		h.createPosition(pool)
+		h.dump(pool)
+		h.fp = &clForcedPos{pl.CurrentTick + 1, pl.CurrentTick + 1 + 2*w, c, c}
+		h.createPosition(pool)
+		h.dump(pool)
+		e.Stat("script.position_bounded_by_resting_tick")
+	}
 	for k := 0; k < 2; k++ {
 		h.dustDir = 0
 		h.swap(pool)
